@@ -317,12 +317,13 @@ def enumFacts (cfg : Cfg) (e : RustEnum) : Outcome (List KtDecl) :=
     (casesFacts cfg e contentKey e.variants).bind fun cases =>
       .ok (inners ++ [.sealedClass e.comments (cfg.pfx ++ e.id.renamed) gp cases])
 
-/-- the declarations one item produces; `write_const` is `todo!()` (kotlin.rs:183) -/
+/-- the declarations one item produces; `write_const` reports consts as unsupported (an io error
+since the `fix:` commit bf55905; before it `todo!()` panicked) -/
 def itemFacts (cfg : Cfg) : RustItem → Outcome (List KtDecl)
   | .struct s => (structFacts cfg s).bind fun d => .ok [d]
   | .enum e => enumFacts cfg e
   | .alias a => (aliasFacts cfg a).bind fun d => .ok [d]
-  | .const _ => .panic s%"kotlin.rs:183"
+  | .const _ => .err (.formatError s%"ConstUnsupported")
 
 def itemsFacts (cfg : Cfg) : List RustItem → Outcome (List KtDecl)
   | [] => .ok []
